@@ -48,6 +48,59 @@ pub fn split() -> (NetworkController, NetworkProcessor) {
     (network_controller, network_processor)
 }
 
+/// Verification hook: like [`split()`] but additionally mounts `adapter` under `adapter_id`
+/// (an id no built-in transport uses), so that a scripted adapter can drive the real driver.
+#[cfg(message_io_verif)]
+pub fn verif_split_with(
+    adapter_id: u8,
+    adapter: impl adapter::Adapter + 'static,
+) -> (NetworkController, NetworkProcessor) {
+    let mut drivers = DriverLoader::default();
+    Transport::iter().for_each(|transport| transport.mount_adapter(&mut drivers));
+    drivers.mount(adapter_id, adapter);
+
+    let (poll, controllers, processors) = drivers.take();
+    (NetworkController::new(controllers), NetworkProcessor::new(poll, processors))
+}
+
+#[cfg(message_io_verif)]
+impl NetworkController {
+    /// Verification hook: `connect` on the driver mounted under `adapter_id`.
+    pub fn verif_connect_on(
+        &self,
+        adapter_id: u8,
+        addr: RemoteAddr,
+    ) -> io::Result<(Endpoint, SocketAddr)> {
+        self.controllers[adapter_id as usize].connect_with(Transport::Tcp.into(), addr)
+    }
+
+    /// Verification hook: `listen` on the driver mounted under `adapter_id`.
+    pub fn verif_listen_on(
+        &self,
+        adapter_id: u8,
+        addr: SocketAddr,
+    ) -> io::Result<(ResourceId, SocketAddr)> {
+        self.controllers[adapter_id as usize].listen_with(Transport::Tcp.into(), addr)
+    }
+}
+
+#[cfg(message_io_verif)]
+impl NetworkProcessor {
+    /// Verification hook: what `process_poll_event` does for one poll event, without the poll.
+    pub fn verif_process(
+        &self,
+        resource_id: ResourceId,
+        readiness: Readiness,
+        event_callback: &mut dyn FnMut(NetEvent<'_>),
+    ) {
+        self.processors[resource_id.adapter_id() as usize].process(
+            resource_id,
+            readiness,
+            event_callback,
+        );
+    }
+}
+
 /// Shareable instance in charge of control all the connections.
 pub struct NetworkController {
     controllers: ActionControllerList,
